@@ -51,7 +51,8 @@ META = {
             "encoders and decoders on all 23 record types x formats and compares, field by field with the harness's own dumper, against the model's "
             "prediction and against the property's comparison.",
     "note": "Decoder robustness is search only (mutated encodings + random bytes under recover). Known findings on the unchanged tree: K01 origins not "
-            "decodable (msgpack, JSON), K02 stored form loses Mode when it disagrees with MaxDepth, K03 status filters widened by their string form, "
-            "K04 JSON decoding of an invalid multiaddress panics (go-multiaddr v0.3.3), K05 msgpack nil in an address list decodes to a value that cannot be re-encoded.",
+            "decodable (msgpack, JSON), K13 stored form loses Mode when it disagrees with MaxDepth, K14 status filters widened by their string form, "
+            "K16 msgpack nil in an address list decodes to a value that cannot be re-encoded (an error since f2e567e, no panic). "
+            "K15 (JSON decoding of an invalid multiaddress panicked) is fixed by f2e567e.",
     "technique": "Lean 4 decide-theorems over a reflection-generated schema table + theorems over hand models of the converters + differential correspondence + mutation-based decoder search",
 }
